@@ -157,6 +157,21 @@ def shapes(tier):
             ms.append((nm, Ty(k, members=[Mem('c', P('INTEGER')), Mem('f', R(nxt), 'req' if k == 'choice' else 'optional')])))
         text = "M DEFINITIONS AUTOMATIC TAGS ::= BEGIN " + ' '.join(f"{n} ::= {t.text()}" for n, t in ms) + " END"
         out.append((f"C02 cycle3 {k1}/{k2}/{k3}", text, {'defs': ms}))
+    # extension additions after the marker: every component still there, in source order (marking is C05's subject)
+    for cont in ('seq', 'set'):
+        for r, a in ((1, 2), (1, 3), (2, 3), (2, 1), (0, 2), (3, 4)) if tier == 'quick' else itertools.product(range(0, 5), range(1, 6)):
+            for nested in (False, True):
+                ms = [Mem(f"m{i}", P(['BOOLEAN', 'INTEGER', 'NULL'][i % 3]), 'req' if i < r else 'optional') for i in range(r + a)]
+                body = ', '.join([m.text() for m in ms[:r]] + ['...'] + [m.text() for m in ms[r:]])
+                kw = 'SEQUENCE' if cont == 'seq' else 'SET'
+                t = Ty(cont, members=ms)
+                if nested:
+                    text = f"M DEFINITIONS AUTOMATIC TAGS ::= BEGIN R ::= SEQUENCE {{ z BOOLEAN }} T ::= SEQUENCE {{ o {kw} {{ {body} }}, p NULL }} END"
+                    top = Ty('seq', members=[Mem('o', t), Mem('p', P('NULL'))])
+                else:
+                    text = f"M DEFINITIONS AUTOMATIC TAGS ::= BEGIN R ::= SEQUENCE {{ z BOOLEAN }} T ::= {kw} {{ {body} }} END"
+                    top = t
+                out.append((f"C02 {cont} extension additions root={r} additions={a}{' nested' if nested else ''}", text, {'top': top}))
     # SEQUENCE OF / SET OF at top level
     for k in ('seqof', 'setof'):
         for label, mk, opts, dflt in interesting(tier):
